@@ -67,7 +67,7 @@ static int run_config(vp_rng_t* r, int tscf, int udp, int fd, int count, int pac
         _exit(3);
     }
     close(can[1]); close(net[1]);
-    struct timeval tv = { 120, 0 }; setsockopt(net[0], SOL_SOCKET, SO_RCVTIMEO, &tv, sizeof tv);
+    struct timeval tv = { 60, 0 }; setsockopt(net[0], SOL_SOCKET, SO_RCVTIMEO, &tv, sizeof tv);
     tunl_config(udp, fd);
     int rc = 0;
     uint32_t serial = 0;
@@ -118,7 +118,14 @@ static int run_config(vp_rng_t* r, int tscf, int udp, int fd, int count, int pac
         if (rc) break;
         uint8_t pkt[2048];
         ssize_t pn = recv(net[0], pkt, sizeof pkt, 0);
-        if (pn < 0) { printf("ERR|talker produced no packet (%s)\n", cfg); rc = 2; break; }
+        if (pn < 0) {
+            /* nothing came out for the frames handed in: a talker that is still alive swallowed them (violation); one that has
+             * exited never got going (argument parsing, sockets: the harness's problem) */
+            int st0 = 0;
+            if (waitpid(pid, &st0, WNOHANG) == 0) { viol(cfg, "no-packet-for-the-frames-handed-in", "the talker is alive but sent nothing within 60 s", 0, 0, fd, 0, 0); rc = 3; }
+            else { printf("ERR|talker exited without producing a packet (%s)\n", cfg); rc = 2; }
+            break;
+        }
         n_packets++;
         /* independent check of the control-format header: announced bytes == bytes of the ACF messages that follow */
         size_t o = udp ? 4 : 0, cfh = tscf ? 24 : 12;
@@ -183,21 +190,21 @@ int main(void)
         int maxfit = (1500 - (udp ? 4 : 0) - (tscf ? 24 : 12)) / (fd ? 80 : 24);        /* maximum-length frames that fit the talker's buffer */
         for (int c = 0; c < 7; c++) {
             int count = c == 5 ? maxfit : c == 6 ? 2 + (int)vp_rng_below(&r, (uint64_t)maxfit - 2) : fd ? counts_fd[c] : counts_cc[c];
-            int e = run_config(&r, tscf, udp, fd, count, packets, 0);
+            int e = rc ? rc : run_config(&r, tscf, udp, fd, count, packets, 0);
             if (e) rc = e;
         }
         {   /* as many data-less frames as the talker's buffer holds (16-byte messages: up to 93 in one packet) */
-            int e = run_config(&r, tscf, udp, fd, (1500 - (udp ? 4 : 0) - (tscf ? 24 : 12)) / 16, packets < 6 ? packets : 6, 1);
+            int e = rc ? rc : run_config(&r, tscf, udp, fd, (1500 - (udp ? 4 : 0) - (tscf ? 24 : 12)) / 16, packets < 6 ? packets : 6, 1);
             if (e) rc = e;
         }
         if ((int)(seed % 8) == tscf * 4 + udp * 2 + fd) {   /* one long stream per run: sequence numbers wrap, state accumulates */
-            int e = run_config(&r, tscf, udp, fd, 1 + (int)(seed / 8 % 3), 600, 0);
+            int e = rc ? rc : run_config(&r, tscf, udp, fd, 1 + (int)(seed / 8 % 3), 600, 0);
             if (e) rc = e;
         }
     }
     printf("S|evals|%llu\nS|ops|%llu\nS|tunnel.frames|%llu\nS|tunnel.packets|%llu\nS|nontrivial|%llu\nS|violations|%llu\n", (unsigned long long)n_evals, (unsigned long long)n_frames,
            (unsigned long long)n_frames, (unsigned long long)n_packets, (unsigned long long)n_nontrivial, (unsigned long long)n_viol);
-    if (rc) printf("ERR|tunnel harness error %d\n", rc);
+    if (rc == 2) printf("ERR|tunnel harness error %d\n", rc);
     printf("END|tunnel\n");
     return 0;
 }
